@@ -55,6 +55,12 @@ Lemma pre_signal s id i n p : h_pre (handle_signal_stage s id i n p) = None.
 Proof. unfold handle_signal_stage. break_match; reflexivity. Qed.
 Lemma pre_jump s id i tg c : h_pre (handle_jump s id i tg c) = None.
 Proof. unfold handle_jump. break_match; reflexivity. Qed.
+Lemma pre_pause_task s id i t : h_pre (handle_pause_task s id i t) = None.
+Proof. unfold handle_pause_task. break_match; reflexivity. Qed.
+Lemma pre_resume_stage s id i : h_pre (handle_resume_stage s id i) = None.
+Proof. unfold handle_resume_stage. break_match; reflexivity. Qed.
+Lemma pre_restart_stage s id i : h_pre (handle_restart_stage s id i) = None.
+Proof. unfold handle_restart_stage. break_match; reflexivity. Qed.
 
 (* RunTask executes the task only if the cancel flag is off, the task is RUNNING (run_task_guard) and the
    workflow is not complete *)
@@ -70,6 +76,7 @@ Proof.
   destruct (run_task_guard (t_status tk)) eqn:Hg; simpl; [|discriminate].
   destruct (w_canceled s) eqn:Hc; [discriminate|].
   destruct (is_complete (w_status s)) eqn:Hw; [discriminate|].
+  destruct (status_eqb (w_status s) PAUSED); [discriminate|].
   simpl. intros H. inversion H. subst p. repeat split. exists st, tk. auto.
 Qed.
 
@@ -78,7 +85,8 @@ Lemma pre_handle orc s r p :
 Proof.
   unfold handle. destruct (q_msg r) eqn:E;
     rewrite ?pre_start_workflow, ?pre_complete_workflow, ?pre_cancel_workflow, ?pre_start_stage, ?pre_complete_stage,
-            ?pre_skip_stage, ?pre_cancel_stage, ?pre_start_task, ?pre_complete_task, ?pre_signal, ?pre_jump; try discriminate.
+            ?pre_skip_stage, ?pre_cancel_stage, ?pre_start_task, ?pre_complete_task, ?pre_signal, ?pre_jump,
+            ?pre_pause_task, ?pre_resume_stage, ?pre_restart_stage; try discriminate.
   intros H. apply pre_run_task in H. destruct H as [Hc [Hp _]]. split; [exact Hc|]. exists s0, t. auto.
 Qed.
 
@@ -109,6 +117,9 @@ Proof.
   - exact Hc.
   - exact Hc.
   - exact Hc.
+  - exact Hc.
+  - apply canceled_commit, Hc.
+  - exact Hc.
 Qed.
 
 Theorem no_exec_after_cancel orc s a : w_canceled s = true -> g_execs (step orc s a) = g_execs s.
@@ -119,6 +130,7 @@ Proof.
   - destruct k; [reflexivity|]. destruct (delivery_commits orc s id true) as [d|] eqn:Hd; [|reflexivity].
     rewrite execs_commits. rewrite (delivery_pre_not_canceled _ _ _ _ _ Hd Hc). simpl. apply execs_commit.
   - unfold recover. apply execs_commit.
+  - apply execs_commit.
 Qed.
 
 Theorem no_exec_after_cancel_run orc acts : forall s,
